@@ -138,6 +138,10 @@ def gen_plan(prop, tier, rng, i):
     nreaders = 1
     ops.append({"op": "newreader"})
     with_rf = prop == "C20" and rng.random() < 0.7
+    if with_rf and rng.random() < 0.5:
+        ops.append({"op": "rfw", "len": rng.choice([5, 40])})
+        for _ in range(rng.randrange(1, 3)):
+            ops.append({"op": rng.choice(["rfmd", "rfgetmd"])})
     for w in range(nwrites):
         form = rng.choice(["single", "single", "dict", "list"])
         cnt = 1 if form == "single" else rng.randrange(1, 6)
@@ -205,6 +209,11 @@ def _gen_query(rng, cfg, idxs, nreaders, fields, with_rf):
         k = rng.choice(idxs)
         a = k + rng.choice([0, 0, -1, 1, -3, 2])
         kind = rng.random()
+        if kind < 0.12:
+            # end_sample omitted: the documented default is "only start_sample"
+            cols = rng.choice([None, None, rng.choice(fields)])
+            return {"op": "mread", "r": rd, "a": max(0, a), "b": None, "cols": cols,
+                    "method": rng.choice([None, "ffill", "ffill", "pad"])}
         if kind < 0.3:
             b = a
         elif kind < 0.7:
@@ -233,7 +242,7 @@ def _gen_query(rng, cfg, idxs, nreaders, fields, with_rf):
         return {"op": "mfields", "r": rd}
     if r < 0.94 or not with_rf:
         return {"op": "lsdrf", "flags": [rng.random() < 0.7, rng.random() < 0.7, rng.random() < 0.7, rng.random() < 0.7]}
-    return {"op": rng.choice(["rfread", "rfmd", "rfbounds", "rfblocks", "rfprops", "rflastwrite", "rfvector"])}
+    return {"op": rng.choice(["rfread", "rfmd", "rfgetmd", "rfbounds", "rfblocks", "rfprops", "rflastwrite", "rfvector"])}
 
 
 def shrink_candidates(plan):
@@ -415,8 +424,13 @@ def run_plan(prop, plan):
                 except Exception:  # noqa
                     res.probe("duplicate_refused")
                 burnt.update(tail)
-                rd = dm.DigitalMetadataReader(mdir)
-                out = rd.read(k, k)
+                try:
+                    rd = dm.DigitalMetadataReader(mdir)
+                    out = rd.read(k, k)
+                except Exception as e:  # noqa
+                    v("C20", "reader_construct_fails", "after a refused duplicate write: %s: %s" % (type(e).__name__, str(e)[:200]))
+                    v("C12", "read_raises", "after a refused duplicate write: %s: %s" % (type(e).__name__, str(e)[:200]))
+                    break
                 if k not in [int(x) for x in out] or not MD.deep_equal(_plain(out[_key(out, k)]), before):
                     v("C12", "duplicate_changed_sample", "after a refused duplicate write sample %d reads %r, was %r" % (
                         k, out.get(k), before))
@@ -438,7 +452,7 @@ def run_plan(prop, plan):
                 res.fault("clock_jump")
             elif o == "rfw":
                 _rf_write(plan, rf, chdir, op, res, v)
-            elif o in ("rfread", "rfmd", "rfbounds", "rfblocks", "rfprops", "rflastwrite", "rfvector"):
+            elif o in ("rfread", "rfmd", "rfgetmd", "rfbounds", "rfblocks", "rfprops", "rflastwrite", "rfvector"):
                 _rf_query(o, rf, tree, model, readonly, v, res)
             elif o == "lsdrf":
                 fl = op["flags"]
@@ -488,6 +502,9 @@ def _md_query(op, rd, model, burnt, readonly, v, res):
     if o == "mread":
         a, b, cols, method = op["a"], op["b"], op["cols"], op["method"]
         out, exc = readonly("read", lambda: rd.read(a, b, cols, method))
+        if b is None:
+            res.probe("read_with_end_omitted")
+            b = a
         exp = model.in_range(a, b)
         if method in ("ffill", "pad"):
             res.probe("ffill_read")
@@ -501,12 +518,12 @@ def _md_query(op, rd, model, burnt, readonly, v, res):
         if exc is not None:
             if not model.samples and isinstance(exc, IOError):
                 return
-            v("C12", "read_raises", "read(%d,%d,%r,%r) raised %s: %s" % (a, b, cols, method, type(exc).__name__, str(exc)[:200]))
+            v("C12", "read_raises", "read(%d,%s,%r,%r) raised %s: %s" % (a, op["b"], cols, method, type(exc).__name__, str(exc)[:200]))
             return
         got = [int(k) for k in out.keys()]
         if got != exp:
-            v("C12", "read_index_set", "read(%d,%d,columns=%r,method=%r) returns indices %s, expected %s" % (
-                a, b, cols, method, got[:8], exp[:8]), method=method or "none")
+            v("C12", "read_index_set", "read(%d,%s,columns=%r,method=%r) returns indices %s, expected %s" % (
+                a, op["b"], cols, method, got[:8], exp[:8]), method=method or "none")
             return
         for kk, val in out.items():
             e = model.select(int(kk), cols)
@@ -609,12 +626,23 @@ def _rf_query(o, rf, tree, mdmodel, readonly, v, res):
     elif o == "rfvector":
         lo, hi = rf["model"].bounds_written()
         readonly("DigitalRFReader.read_vector", lambda: rd.read_vector(lo, 1, c.channel))
+    elif o == "rfgetmd":
+        # (the reader object it returns is not judged here - only that asking for it leaves the tree alone)
+        readonly("DigitalRFReader.get_digital_metadata", lambda: rd.get_digital_metadata(c.channel))
+        if not mdmodel.bounds():
+            res.probe("rf_reader_asked_for_metadata_before_first_metadata_write")
     else:
         mb = mdmodel.bounds()
         if mb:
             out, exc = readonly("DigitalRFReader.read_metadata", lambda: rd.read_metadata(mb[0], mb[1], c.channel))
             if exc is not None:
                 v("C20", "read_metadata_raises", "%s: %s" % (type(exc).__name__, str(exc)[:200]))
+        else:
+            # metadata writer constructed, nothing written yet: the outcome (empty / IOError) is not judged, the
+            # tree must be left alone
+            lo, hi = rf["model"].bounds_written()
+            readonly("DigitalRFReader.read_metadata", lambda: rd.read_metadata(lo, hi, c.channel, method=None))
+            res.probe("rf_reader_asked_for_metadata_before_first_metadata_write")
 
 
 COMPONENTS = {
